@@ -817,6 +817,7 @@ func (r *Raft) ReloadableConfig() ReloadableConfig {
 func (r *Raft) BootstrapCluster(configuration Configuration) Future {
 	bootstrapReq := &bootstrapFuture{}
 	bootstrapReq.init()
+	bootstrapReq.ShutdownCh = r.shutdownCh
 	bootstrapReq.configuration = configuration
 	select {
 	case <-r.shutdownCh:
@@ -888,6 +889,7 @@ func (r *Raft) ApplyLog(log Log, timeout time.Duration) ApplyFuture {
 		},
 	}
 	logFuture.init()
+	logFuture.ShutdownCh = r.shutdownCh
 
 	select {
 	case <-timer:
@@ -914,6 +916,7 @@ func (r *Raft) Barrier(timeout time.Duration) Future {
 	// Create a log future, no index or term yet
 	logFuture := &logFuture{log: Log{Type: LogBarrier}}
 	logFuture.init()
+	logFuture.ShutdownCh = r.shutdownCh
 
 	select {
 	case <-timer:
@@ -932,6 +935,7 @@ func (r *Raft) VerifyLeader() Future {
 	metrics.IncrCounter([]string{"raft", "verify_leader"}, 1)
 	verifyFuture := &verifyFuture{}
 	verifyFuture.init()
+	verifyFuture.ShutdownCh = r.shutdownCh
 	select {
 	case <-r.shutdownCh:
 		return errorFuture{ErrRaftShutdown}
@@ -1078,6 +1082,7 @@ func (r *Raft) Shutdown() Future {
 func (r *Raft) Snapshot() SnapshotFuture {
 	future := &userSnapshotFuture{}
 	future.init()
+	future.ShutdownCh = r.shutdownCh
 	select {
 	case r.userSnapshotCh <- future:
 		return future
@@ -1114,6 +1119,7 @@ func (r *Raft) Restore(meta *SnapshotMeta, reader io.Reader, timeout time.Durati
 		reader: reader,
 	}
 	restore.init()
+	restore.ShutdownCh = r.shutdownCh
 	select {
 	case <-timer:
 		return ErrEnqueueTimeout
@@ -1136,6 +1142,7 @@ func (r *Raft) Restore(meta *SnapshotMeta, reader io.Reader, timeout time.Durati
 		},
 	}
 	noop.init()
+	noop.ShutdownCh = r.shutdownCh
 	select {
 	case <-timer:
 		return ErrEnqueueTimeout
